@@ -7,6 +7,9 @@
 //!   event = the case + every item extended by "outcome" ("ok" | "panic") and "out" (formula text read back)
 //!   move: Cell at (fc,fr), set_formula(f), set_coordinate((tc,tr)), get_formula
 //!   far : worksheet `own`, cell (c,r) with formula f, Worksheet::insert_new_row(p, 1), get_formula
+//!   other: {"op":"other","c","r","edited","third","edit":"Insert"|"Remove","ax","p","n"}: workbook with sheets
+//!         own, edited, third; formula f in own!(c,r); Spreadsheet::insert_new_row / insert_new_column_by_index /
+//!         remove_row / remove_column_by_index on sheet `edited`; get_formula of own!(c,r)
 //!
 //! kind "wb" (C08)
 //!   case  = {"case": id, "kind":"wb", "sheets":[names], "cells":[{"s","r","c","toks","f"}],
@@ -52,6 +55,23 @@ fn run_cell(case: &Value) -> Vec<Value> {
                 ws.get_cell_mut((u(it, "c"), u(it, "r"))).set_formula(f.clone());
                 ws.insert_new_row(&u(it, "p"), &1);
                 ws.get_cell((u(it, "c"), u(it, "r"))).map(|c| c.get_formula().to_string()).unwrap_or_else(|| "<cell missing>".into())
+            }
+            "other" => {
+                // third identity path: the formula sits on sheet `own`; a workbook-level edit hits another sheet
+                let mut book = umya_spreadsheet::new_file_empty_worksheet();
+                book.new_sheet(own.clone()).unwrap();
+                book.new_sheet(s(it, "edited").to_string()).unwrap();
+                book.new_sheet(s(it, "third").to_string()).unwrap();
+                book.get_sheet_mut(&0).unwrap().get_cell_mut((u(it, "c"), u(it, "r"))).set_formula(f.clone());
+                let (p, n) = (u(it, "p"), u(it, "n"));
+                match (s(it, "edit"), s(it, "ax")) {
+                    ("Insert", "row") => book.insert_new_row(s(it, "edited"), &p, &n),
+                    ("Insert", _) => book.insert_new_column_by_index(s(it, "edited"), &p, &n),
+                    ("Remove", "row") => book.remove_row(s(it, "edited"), &p, &n),
+                    _ => book.remove_column_by_index(s(it, "edited"), &p, &n),
+                }
+                book.get_sheet(&0).unwrap().get_cell((u(it, "c"), u(it, "r")))
+                    .map(|c| c.get_formula().to_string()).unwrap_or_else(|| "<cell missing>".into())
             }
             other => panic!("unknown item op {}", other),
         }));
